@@ -15,7 +15,7 @@ def resCode : Res → Int
   | .t => 0 | .f => 1 | .noData => 2 | .optNoData => 3
 
 /-- the model's evaluator in the shape of Go's `matchStatement` -/
-def extMatch (n : Node) : Option Stmt → Node → (Int × Option Stmt) := fun os _ =>
+def extMatch : Option Stmt → Node → (Int × Option Stmt) := fun os n =>
   match os with
   | some s => (resCode (matchStmt s n), some s)
   | none => (0, none)
@@ -24,7 +24,7 @@ theorem idx_natP {α} (xs : List α) (n : Nat) (h : n < xs.length) : idx xs (n :
   simp [idx, h, pure, Except.pure]
 
 theorem match_loop (p : List Stmt) (n : Node) (fuel k : Nat) (hf : p.length - k < fuel) (hk : k ≤ p.length) :
-    ∃ out, Gen.Policy_Match.loop1 (extMatch n) fuel (p.map some) n (k : Int) = .ok out ∧
+    ∃ out, Gen.Policy_Match.loop1 extMatch fuel (p.map some) n (k : Int) = .ok out ∧
       (Policy.Match (p.drop k) n = true → out = .next (p.length : Int)) ∧
       (Policy.Match (p.drop k) n = false → ∃ leaf, out = .ret (false, leaf)) := by
   induction fuel generalizing k with
@@ -53,7 +53,7 @@ theorem match_loop (p : List Stmt) (n : Node) (fuel k : Nat) (hf : p.length - k 
 
 /-- `Policy.Match`, regenerated, decides what the model's `Match` decides (the conjunction C03 and C11 are about) -/
 theorem Policy_Match_eq (p : List Stmt) (n : Node) :
-    ∃ leaf, Gen.Policy_Match (extMatch n) (p.map some) n = .ok (Policy.Match p n, leaf) := by
+    ∃ leaf, Gen.Policy_Match extMatch (p.map some) n = .ok (Policy.Match p n, leaf) := by
   unfold Gen.Policy_Match
   obtain ⟨out, ho, h3, h4⟩ := match_loop p n (p.length + 1) 0 (by omega) (by omega)
   simp only [Int.natCast_zero, List.drop_zero, List.length_map] at ho h3 h4
@@ -67,7 +67,7 @@ theorem Policy_Match_eq (p : List Stmt) (n : Node) :
     exact ⟨leaf, by simp [ho, bind, Except.bind, pure, Except.pure]⟩
 
 theorem partial_loop (p : List Stmt) (n : Node) (fuel k : Nat) (hf : p.length - k < fuel) (hk : k ≤ p.length) :
-    ∃ out, Gen.Policy_PartialMatch.loop1 (extMatch n) fuel (p.map some) n (k : Int) = .ok out ∧
+    ∃ out, Gen.Policy_PartialMatch.loop1 extMatch fuel (p.map some) n (k : Int) = .ok out ∧
       (Policy.PartialMatch (p.drop k) n = true → out = .next (p.length : Int)) ∧
       (Policy.PartialMatch (p.drop k) n = false → ∃ leaf, out = .ret (false, leaf)) := by
   induction fuel generalizing k with
@@ -96,7 +96,7 @@ theorem partial_loop (p : List Stmt) (n : Node) (fuel k : Nat) (hf : p.length - 
 
 /-- `Policy.PartialMatch`, regenerated, decides what the model's `PartialMatch` decides -/
 theorem Policy_PartialMatch_eq (p : List Stmt) (n : Node) :
-    ∃ leaf, Gen.Policy_PartialMatch (extMatch n) (p.map some) n = .ok (Policy.PartialMatch p n, leaf) := by
+    ∃ leaf, Gen.Policy_PartialMatch extMatch (p.map some) n = .ok (Policy.PartialMatch p n, leaf) := by
   unfold Gen.Policy_PartialMatch
   obtain ⟨out, ho, h3, h4⟩ := partial_loop p n (p.length + 1) 0 (by omega) (by omega)
   simp only [Int.natCast_zero, List.drop_zero, List.length_map] at ho h3 h4
